@@ -259,3 +259,37 @@ Fixpoint run_state (ops : list op) (s : bytes) : bytes :=
   | [] => s
   | o :: ops' => run_state ops' (snd (step o s))
   end.
+
+(* ---------- reference semantics: reading the element list of a plain JSON parse ---------- *)
+(* what a read yields once the sequence is exhausted (or dead) *)
+Definition exhausted (o : op) : out :=
+  match o with ONext _ => OErr invalid_params | OOpt _ => OAbsent end.
+
+(* what a read yields at element v; None = the element does not have the requested type *)
+Definition read_elem (o : op) (v : json) : option out :=
+  match o with
+  | ONext t => match decode t v with Some x => Some (OVal x) | None => None end
+  | OOpt t =>
+    match v with
+    | JNull => Some OAbsent
+    | _ => match decode t v with Some x => Some (OVal x) | None => None end
+    end
+  end.
+
+(* reads against the remaining elements; after a failed read nothing is left *)
+Fixpoint spec (ops : list op) (vs : list json) : list out :=
+  match ops with
+  | [] => []
+  | o :: ops' =>
+    match vs with
+    | [] => exhausted o :: spec ops' []
+    | v :: vs' =>
+      match read_elem o v with
+      | Some r => r :: spec ops' vs'
+      | None => OErr invalid_params :: spec ops' []
+      end
+    end
+  end.
+
+Definition is_value (o : out) : bool := match o with OVal _ => true | _ => false end.
+Definition is_error (o : out) : bool := match o with OErr _ => true | _ => false end.
